@@ -8,6 +8,7 @@ import pcommon
 from cxxheaderparser.simple import parse_string, SimpleCxxVisitor
 from cxxheaderparser.errors import CxxParseError
 
+TECHNIQUE = 'Lean 4: simulation proofs over all client programs (nest_sim: nesting/identities/parents; fault_sim: a raising callback at any position truncates the stream and is the chained cause), instantiated at the parser model; model tied by correspondence on full event streams with fault injection'
 LEAN_TARGET = "CxxModel.Props.C04"
 THEOREMS = ["Cxx.C04_well_nested", "Cxx.C04_parse_start_first", "Cxx.C04_fault_truncates", "Cxx.C04_fault_cause",
             "Cxx.C04_parser_well_nested", "Cxx.C04_parser_fault", "Cxx.fault_sim", "Cxx.nest_sim", "Cxx.interp_extends"]
